@@ -341,12 +341,13 @@ class ArgumentParser(argparse.ArgumentParser):
 
             # Adding it here just so it shows up in the help message. The default will be set in
             # the help string.
-            self.add_argument(
-                f"--{config_path_name}",
-                type=Path,
-                default=config_path,
-                help="Path to a config file containing default values to use.",
-            )
+            if f"--{config_path_name}" not in self._option_string_actions:
+                self.add_argument(
+                    f"--{config_path_name}",
+                    type=Path,
+                    default=config_path,
+                    help="Path to a config file containing default values to use.",
+                )
 
         assert isinstance(args, list)
         self._preprocessing(args=args, namespace=namespace)
